@@ -118,6 +118,41 @@ class ClassWorld(World):
                         f"under the running loop (must iterate a snapshot)")
         self.callout(it, ("all", lst.term, tuple((m, tuple(self.h.lift(it, a) for a in args)) for m, args in calls)))
 
+    def broadcast_general(self, it, st, env, lst):
+        """a loop over a symbolic list of collaborators whose body is not literally `x.m(args)`.  Call-out discipline for loops:
+        every iteration runs unknown code, which may re-enter the object (subscribe, unsubscribe, dispose ...) - so the loop
+        must iterate a snapshot AND its body must not read the object's fields (it has to work on locals taken before the first
+        call-out).  Then ONE arbitrary iteration must amount to calls on the loop variable only."""
+        import ast as _ast
+
+        if not isinstance(st.target, _ast.Name) or st.orelse:
+            raise Unsupported("loop over a symbolic list of collaborators: target / else")
+        if self.side == "impl":
+            reads = sorted({n.attr for b in st.body for n in _ast.walk(b)
+                            if isinstance(n, _ast.Attribute) and isinstance(n.value, _ast.Name) and n.value.id == "self"
+                            and n.attr in self.h.obj.fields and not isinstance(self.h.obj.fields[n.attr], (Closure, BoundMethod))})
+            if reads:
+                self.violations.append(
+                    f"the loop calls out on every member and reads self.{', self.'.join(reads)} inside its body: a callback of an earlier member "
+                    f"may have re-entered the object (dispose, subscribe, a further notification) and changed them - later members are "
+                    f"served from the changed state (the values have to be taken into locals before the first call-out)")
+                return
+        e = it.ctx.fresh("member", "val").t
+        it.ctx.assume(z3.Contains(lst.term, z3.Unit(e)))
+        n0 = len(self.log[self.side])
+        it.assign(st.target, self.deref(it, lst.elem[4:], e), env)
+        it.exec_block(st.body, env)
+        new = self.log[self.side][n0:]
+        if not new or any(ev[0] != "one" or not z3.eq(ev[1], e) for ev in new):
+            raise Unsupported("loop over a symbolic list of collaborators: the body is not just calls on the loop variable")
+        calls = tuple(c for ev in new for c in ev[2])
+        del self.log[self.side][n0:]
+        del self.snaps[self.side][n0:]
+        k = len(self.log[self.side])
+        self.log[self.side].append(("all", lst.term, calls))
+        self.snaps[self.side].append(self.h.snapshot(it, self.side))
+        _ = k
+
     def current_thread(self, it):
         return Opaque("thread", "T")
 
